@@ -144,13 +144,19 @@ impl Run<'_> {
     }
 
     /// Output swap path of 1..=3 distinct long/short markets other than `m` (rotation chosen by `salt`),
-    /// optionally followed by `m` itself when it is a long/short market ("[A, current]" shapes).
+    /// optionally followed or preceded by `m` itself when it is a long/short market ("[A, current]" and
+    /// "[current, A]" shapes).
     fn out_path(&self, m: usize, salt: usize) -> Vec<usize> {
         let c: Vec<usize> = NON_PURE.iter().copied().filter(|k| *k != m).collect();
         let hops = 1 + (salt / 64) % 3;
         let mut path: Vec<usize> = (0..hops.min(c.len())).map(|i| c[(salt + i) % c.len()]).collect();
-        if (salt / 16) % 2 == 1 && NON_PURE.contains(&m) {
-            path.push(m);
+        if NON_PURE.contains(&m) {
+            // the current market itself at the end ("[A, current]") or at the start ("[current, A]") of the path
+            match (salt / 16) % 4 {
+                1 => path.push(m),
+                2 => path.insert(0, m),
+                _ => {}
+            }
         }
         path
     }
